@@ -1,8 +1,10 @@
 import Anndb.Drive.PQ
+import Anndb.Drive.Hnsw
 /-! `driver <engine>`: the executable Lean models behind a one-line-in, one-line-out protocol. -/
 def main (args : List String) : IO UInt32 := do
   let h ← IO.getStdin
   let out ← IO.getStdout
   match args with
   | ["pq"] => Anndb.Drive.PQ.main h out; return 0
+  | ["hnsw"] => Anndb.Drive.Hnsw.main h out; return 0
   | _ => IO.eprintln "usage: driver <engine>"; return 2
